@@ -596,10 +596,14 @@ int main()
                     std::vector<no::user_input> in;
                     for (auto& t : toks)
                     {
+#ifndef OPT_NO_VERBATIM
                         if (!t.empty() && t[0] == '-')
                             in.emplace_back(t);
                         else
                             in.push_back(no::user_input::verbatim(t));
+#else
+                        in.emplace_back(t); // this tree has no user_input::verbatim(): same meaning for non-dash tokens
+#endif
                     }
                     st.last.emplace(st.p->parse(in));
                 });
